@@ -82,6 +82,16 @@ class Compiler:
 
     @_compile.register
     def _select(self, node: ast.Select):
+        # Compiling a SELECT statement sets the current table. Restore
+        # it afterwards: when this is a nested SELECT, the rest of the
+        # enclosing statement must be compiled against its own table.
+        table = self.table
+        try:
+            return self._compile_select(node)
+        finally:
+            self.table = table
+
+    def _compile_select(self, node):
 
         # Compile the FROM clause.
         c_from_expr = self._compile_from(node.from_clause)
